@@ -28,7 +28,7 @@ fn spec(tier: Tier) -> CheckSpec {
 		rule: format!(
 			"exhaustive: (crash) every token sequence, character string, number-like and text-block-like string of the C06 sequence spaces (same bounds) given to the jrsonnet-fmt pipeline (format, trim, final newline) with {}: no panic, no hang (10 s per case watchdog), a diagnostic (declined) whenever the evaluator's parser rejects the text, and a fixed point whenever it formats; \
 			(fixpoint) every program of the whole-grammar generator with <= {} non-literal constructs x indentation {{tabs, 2, 4}} (thorough: the programs with exactly 4 constructs and the decorations of those with 3 under indentation 2 only), and every program with <= {} constructs additionally with every single insertion of {{newline, blank line, block comment, line comment on its own line, trailing line comment, hash comment, empty / blank / doc / multi-line block comment}} at every token boundary, and with one token per line, plus the repository's parser/formatter test inputs: format(format(x)) = format(x), i.e. `jrsonnet-fmt --test` accepts what `jrsonnet-fmt` printed. (cli) the real dev-profile jrsonnet-fmt executable on every text block of <= 2 lines over {{a, empty, tab+b, spaces+c, spaces only}} x block indentation {{space, tab}} x {{|||, |||-}}, multi-line string literals, every generated program with <= {} constructs and the repository inputs, x {{--indent 2, --indent 4, --hard-tabs}}: no panic (exit 101), stdout equal to the pipeline function used by the other parts, and `jrsonnet-fmt --test` exits 0 on that output. non-trivial = distinct (text, indentation) that the formatter formats",
-			tier.q("indentation 2", "every indentation setting"),
+			tier.q("indentation 2", "every indentation setting for sequences of length <= 3, indentation 2 above"),
 			tier.q(3, 4),
 			tier.q(2, 3),
 			tier.q(1, 2)
@@ -116,7 +116,10 @@ pub fn check_text(rep: &mut Report, text: &str, indent: u8, deco: Option<(&str, 
 					outcome = "own-output-declined".into();
 					rep.violation(Violation {
 						// undecorated text: keyed by the token kinds of the first line the formatter printed
-						class: if deco.is_some() { format!("the formatter declines its own output{ctx}") } else { format!("the formatter declines its own output: `{}`", kinds_of_line(o1.lines().next().unwrap_or(""))) },
+						class: if deco.is_some() { format!("the formatter declines its own output{ctx}") } else { match tokens(o1).into_iter().find(|t| t.kind.starts_with("ERROR")) {
+							Some(t) => format!("the formatter declines its own output: first malformed token {}", t.kind),
+							None => format!("the formatter declines its own output: `{}`", kinds_of_line(o1.lines().next().unwrap_or(""))),
+						} },
 						witness: text.to_owned(),
 						detail: format!("indentation {}\nfirst pass:\n{o1}", indent_name(indent)),
 						cost,
@@ -152,6 +155,9 @@ fn part_crash(shard: &Shard, journal: &Journal, rep: &mut Report) {
 			let mut text: String = prefix.to_owned();
 			text.push_str(&seq.iter().map(|s| alpha[*s]).collect::<Vec<_>>().join(join));
 			journal.note(idx, "crash", &text);
+			// thorough: the longest sequences with one indentation setting (layout options play no part in crashes on
+			// malformed input; the fixpoint part crosses them with every valid program)
+			let indents: &[u8] = if shard.tier == Tier::Thorough && seq.len() > 3 { &[2] } else { indents };
 			for indent in indents {
 				check_text(rep, &text, *indent, None, seq.len() as u32, true);
 			}
